@@ -59,6 +59,7 @@ type Frame struct {
 	parent   *Frame
 	loopN    int
 	loopOrds map[ast.Node]int
+	modFields map[*Cell]map[int]bool // struct cells in a loop modset: indices of the fields the body changes
 	callN    int
 	retN     int
 	depth    int
@@ -506,7 +507,15 @@ func (in *Interp) mapValRangeAxiom(val Term, elem types.Type) {
 // havocCell gives the cell a fresh content in st.
 func (in *Interp) havocCell(st *State, c *Cell, f *Frame) {
 	if c.Typ == nil && c.Kind == CVar {
-		switch x := st.store[c].(type) {
+		cur, ok := st.store[c]
+		if !ok {
+			cur = in.initial[c]
+		}
+		if sc, isSc := cur.(Sc); isSc {
+			st.store[c] = Sc{in.D.fresh(c.Name, sc.T.Sort)}
+			return
+		}
+		switch x := cur.(type) {
 		case BatchV:
 			st.store[c] = in.havocBatch(x)
 			return
